@@ -59,7 +59,10 @@ fn encode_arm<A: Alphabet>(arm: usize, text: &[u8], variant: usize) -> Result<Ve
                     s.to_vec()
                 }),
                 _ => {
-                    let mut dst = vec![A::Symbol::default(); text.len()];
+                    // a caller-owned destination left over from another text (not the default
+                    // symbol): a successful encode_into has written every one of its cells
+                    let stale = A::symbols()[0];
+                    let mut dst = vec![stale; text.len()];
                     p.encode_into(text, &mut dst).map(|_| dst)
                 }
             }
@@ -228,6 +231,27 @@ fn run_len<A: Alphabet>(case: u64, rng: &mut Rng, rep: &mut Report, alpha: &str,
             check_text::<A>(case, rep, alpha, &text, (p + b as usize) % 3, "single fault");
         }
         text[p] = base[p];
+    }
+    // runs of one byte over whole vector blocks (valid: the wildcard letter, a regular letter;
+    // invalid: NUL, 0xFF, space), starting at block-aligned offsets and at offset 1
+    if l >= 16 {
+        let wild = *letters.last().unwrap();
+        for &b in [0u8, 0xFF, b' ', wild, letters[0]].iter() {
+            for &start in [0usize, 1, 16, 32].iter() {
+                for &len in [16usize, 32, 48, l].iter() {
+                    if start >= l {
+                        continue;
+                    }
+                    let end = (start + len).min(l);
+                    let mut t = base.clone();
+                    for x in t[start..end].iter_mut() {
+                        *x = b;
+                    }
+                    rep.cover("class.run_of_one_byte");
+                    check_text::<A>(case, rep, alpha, &t, (start + len) % 3, "run of one byte");
+                }
+            }
+        }
     }
     // multi-fault texts
     if l >= 2 {
